@@ -276,6 +276,43 @@ pub fn run(opts: &Opts) -> Run {
         run.stat(&format!("probe:{}", plabel.split(' ').take(3).collect::<Vec<_>>().join("_")), 1);
     }
     run.stat("histories", n as u64);
+    // the configured window limit changed BETWEEN frames: a reused decoder must apply the limit now in force exactly like
+    // a fresh decoder with that limit (whatever window the previous frame had)
+    for &(prev_wd, limit, probe_wd) in &[(0x68u8, 1u64 << 20, 0x58u8), (0x68, 1 << 20, 0x70), (0x58, 1 << 22, 0x68), (0x00, 2048, 0x08), (0x70, 1 << 21, 0x59), (0x68, 0, 0x00)] {
+        let (prev, _) = synth::serialize(&synth::Frame::simple(vec![synth::Block::Raw(rng.bytes(20))], prev_wd, false), &[]);
+        let (probe, _) = synth::serialize(&synth::Frame::simple(vec![synth::Block::Raw(rng.bytes(33))], probe_wd, true), &[]);
+        run.oracle_checks += 1;
+        let label = format!("window descriptor {:#x} decoded, limit set to {}, then a frame with descriptor {:#x}", prev_wd, limit, probe_wd);
+        let replay = format!("# {}\nhostile input {}\nhostile input {}", label, hex(&prev), hex(&probe));
+        let (p1, p2) = (prev.clone(), probe.clone());
+        let res = guarded(move || {
+            let mut fresh = FrameDecoder::new();
+            fresh.set_max_window_size(limit);
+            let a = transcript(&mut fresh, &p2);
+            let mut reused = FrameDecoder::new();
+            apply_history(&mut reused, &HistItem { frame: p1.clone(), how: 0, label: "previous frame".into() });
+            reused.set_max_window_size(limit);
+            let b = transcript(&mut reused, &p2);
+            (a, b)
+        });
+        match res {
+            Err(p) => run.fail("C03", "panic_reuse", format!("[{}] panic: {}", label, p), replay),
+            Ok((mut a, mut b)) => {
+                // a REFUSED reset leaves the decoder describing the previous frame (reused) or nothing (fresh): compare the
+                // verdict only, not the state behind it
+                let refused = |t: &Vec<String>| t.first().map(|l| l.starts_with("reset err")).unwrap_or(false);
+                if refused(&a) && refused(&b) {
+                    a = vec![a[0].split(" | ").next().unwrap_or("").to_string()];
+                    b = vec![b[0].split(" | ").next().unwrap_or("").to_string()];
+                }
+                if a != b {
+                    let k = a.iter().zip(b.iter()).position(|(x, y)| x != y).unwrap_or(a.len().min(b.len()));
+                    run.fail("C07", "reuse_differs", format!("[{}] reused decoder differs from a fresh one at step {}: fresh `{}` reused `{}`", label, k, a.get(k).cloned().unwrap_or_default(), b.get(k).cloned().unwrap_or_default()), replay);
+                }
+            }
+        }
+        run.stat("limit_changed_between_frames", 1);
+    }
     run.stat("distinct_nontrivial", distinct.len() as u64);
     run
 }
